@@ -149,6 +149,26 @@ pub fn all(n: i64, len: usize) -> Vec<(String, Module)> {
     v
 }
 
+/// programs that use the host API of the harness' Vm (native `host_table`, see c05::new_vm): only for
+/// harnesses that register it (C02)
+pub fn host_api() -> Vec<(String, Module)> {
+    let mut v: Vec<(String, Module)> = vec![];
+    for k in [6i64, 13, 29] {
+        // the host inserts a table of k entries; the script keeps it, allocates, probes and reads it back
+        v.push((format!("host_table_{}", k), module(vec![("main", f(vec![
+            Card::set_global_var("t", Card::call_native("host_table", vec![Card::scalar_int(k)])),
+            Card::set_var("junk", s(24, 21)),
+            probe(),
+            Card::set_global_var("n", Card::from(CardBody::Len(cao_lang::compiler::UnaryExpression::new(Card::read_var("t"))))),
+            Card::set_global_var("first", Card::get_property(Card::read_var("t"), Card::string_card("key0"))),
+            Card::set_global_var("last", Card::get_property(Card::read_var("t"), Card::string_card(format!("key{}", k - 1)))),
+            Card::set_global_var("u", Card::call_native("host_table", vec![Card::scalar_int(k / 2)])),
+            probe(),
+        ]))])));
+    }
+    v
+}
+
 // small helpers so the builders above read naturally
 trait GetValue { fn get_value(self) -> Card; }
 impl GetValue for Card {
